@@ -639,7 +639,7 @@ func runC01(c *Ctx) {
 	checkCreditRewriteFlags(c, "C01-R6")
 	checkTxRecordHashIsTxid(c, "C01-R6")
 	checkNoBulkOverwriteAfterElementWrite(c, "C01-R6")
-	checkRollbackWalk(c, "C01-R4") // "blocks disconnected": every block at or above the target is detached
+	checkRollbackWalk(c, "C01-R4")    // "blocks disconnected": every block at or above the target is detached
 	checkCoupledRollback(c, "C01-R4") // ... and only those: the store is rolled back from the height above the new tip
 	checkLoopCarriedStructs(c, "C01-R4", []string{"rollback", "updateMinedBalance"})
 	runLoopCompleteness(c, "C01-R4", []string{"updateMinedBalance", "rollback", "insertMemPoolTx", "removeDoubleSpends", "removeConflict", "deleteUnminedTx"})
